@@ -252,7 +252,7 @@ class TMGRSchedulingComponent(rpu.ClientComponent):
 
                     # if we have any early_bound tasks waiting for this pilots,
                     # advance them now
-                    early_tasks = self._early.get(pid)
+                    early_tasks = self._early.pop(pid, None)
                     if early_tasks:
 
                         for task in early_tasks:
